@@ -181,8 +181,11 @@ def run(rep, work, tier, seed, props, replay=None):
         for idx, lst in gh.coq_eval_indices(terms, "castcase", "castfailing", work, "c03c", shard=1000, header=hdr):
             cast_bad.extend(owner[idx[j]] for j in lst)
     def pow_shortcut(t, r):
-        return (t["fn"] == "power" and t.get("spell") == "op" and r["why"] and r["why"].startswith("dtype")
-                and any(o["kind"] == "pyfloat" for o in t["operands"]) and t["operands"][0].get("dtype", "f")[0] in "biu")
+        # the ** shortcut (exponent == 1 -> Positive, == 2 -> Square) is taken before the operand types are looked at: a float exponent on an
+        # integer/bool base keeps the integer dtype; a bool exponent (True == 1) on a bool base ends in numpy.positive, which has no bool loop
+        symptom = r["why"] and (r["why"].startswith("dtype") or (r["why"].startswith("only MyGrad raised") and ("'positive'" in r["why"] or "'square'" in r["why"])))
+        return bool(t["fn"] == "power" and t.get("spell") == "op" and symptom
+                    and any(o["kind"] in ("pyfloat", "pybool") for o in t["operands"]) and t["operands"][0].get("dtype", "f")[0] in "biu")
     weak = [i for i in bad if pow_shortcut(tasks[i], res[i])]
     other = [i for i in bad if i not in set(weak)]
     if weak:
